@@ -563,6 +563,7 @@ func (s *Sched) Run(bodies []func(t *TaskCtx)) *RunResult {
 					s.res.FreeRunDeadlock = true
 				}
 				s.res.Steps = step
+				s.acquireDone()
 				return &s.res
 			}
 			s.res.Probes.SpecPassed++
@@ -615,6 +616,7 @@ func (s *Sched) Run(bodies []func(t *TaskCtx)) *RunResult {
 				s.res.FreeRunDeadlock = true
 			}
 			s.res.Steps = step
+			s.acquireDone()
 			return &s.res
 		}
 
@@ -692,6 +694,17 @@ func (s *Sched) Run(bodies []func(t *TaskCtx)) *RunResult {
 
 // Released reports how often task i has been let run so far (scheduler side).
 func (s *Sched) Released(i int) int { return s.tasks[i].released }
+
+// acquireDone orders the caller after every task that has finished (a real
+// acquire of what the task released when it ended): whatever finished tasks
+// wrote may be read afterwards, also when the run was abandoned.
+func (s *Sched) acquireDone() {
+	for _, t := range s.tasks {
+		if s.taskDone(t) {
+			<-t.finished
+		}
+	}
+}
 
 // TaskDone reports whether task i ran to completion (its results may be
 // read).  Only meaningful after Run returned.
